@@ -285,7 +285,7 @@ pub fn c01_cases(b: &Bounds) -> Vec<CaseDesc> {
     for d in [50usize, 300] {
         cases.push(CaseDesc::Chain { depth: d });
     }
-    for (kind, n) in [("classes", 300usize), ("classes", 4200), ("props", 300), ("props", 4200), ("sstr", 300), ("sstr", 4200), ("instances", 70_000), ("oddnames", 0), ("namelens", 0), ("hugeblob", 17_000_000)] {
+    for (kind, n) in [("classes", 300usize), ("classes", 4200), ("props", 300), ("props", 4200), ("sstr", 300), ("sstr", 4200), ("instances", 70_000), ("oddnames", 0), ("namelens", 0), ("widetypes", 4100), ("hugeblob", 17_000_000)] {
         cases.push(CaseDesc::Many { kind: kind.to_owned(), n });
     }
     cases
@@ -310,7 +310,7 @@ pub fn c02_cases(b: &Bounds) -> Vec<CaseDesc> {
     for n in [255usize, 256, 257, 300, 1000] {
         cases.push(CaseDesc::Wide { n });
     }
-    for (kind, n) in [("classes", 300usize), ("classes", 4200), ("props", 300), ("props", 4200), ("sstr", 300), ("sstr", 4200), ("instances", 70_000), ("oddnames", 0), ("namelens", 0), ("hugetext", 17_000_000)] {
+    for (kind, n) in [("classes", 300usize), ("classes", 4200), ("props", 300), ("props", 4200), ("sstr", 300), ("sstr", 4200), ("instances", 70_000), ("oddnames", 0), ("namelens", 0), ("widetypes", 4100), ("hugetext", 17_000_000)] {
         cases.push(CaseDesc::Many { kind: kind.to_owned(), n });
     }
     cases
